@@ -41,6 +41,7 @@ type Step struct {
 	Site    string `json:"site,omitempty"`
 	M       int    `json:"m,omitempty"`
 	ID      string `json:"id,omitempty"`
+	Proj    *Proj  `json:"proj,omitempty"` // the model's state after this step, as far as VerifSnapshot shows it
 	Out     string `json:"out,omitempty"` // cbret: outcome of the callback handler (ok | err:7 | err:plain | err:baddata | badresult | panic)
 	Items   []Item `json:"items,omitempty"`
 	Arr     bool   `json:"arr,omitempty"`
@@ -131,6 +132,13 @@ func rspItem(rsp *jrpc2.Response) map[string]any {
 		}
 	}
 	return it
+}
+
+// Proj is the projection of a ClientImpl state on what Client.VerifSnapshot exposes.
+type Proj struct {
+	NextID  int64    `json:"nextid"`
+	Pending []string `json:"pending"`
+	Stopped bool     `json:"stopped"`
 }
 
 type ctxKey struct{}
@@ -462,6 +470,20 @@ func (r *runner) doStep(st Step) {
 		r.t.Fatalf("unknown step %q", st.A)
 	}
 	s.Settle()
+	if st.Proj != nil && s.Diverged == 0 && r.stats["drift"] == 0 {
+		// binding of ClientImpl: the real client's bookkeeping after this step must be the model's (diagnostic only:
+		// a mismatch is reported as conformance drift, never as a verdict)
+		sn := r.cli.VerifSnapshot()
+		if sn.Pending == nil {
+			sn.Pending = []string{}
+		}
+		if sn.NextID != st.Proj.NextID || sn.Stopped != st.Proj.Stopped || fmt.Sprint(sn.Pending) != fmt.Sprint(st.Proj.Pending) {
+			r.stats["drift"]++
+			r.rec.Log("Drift", "step", st.A, "site", st.Site, "model", fmt.Sprintf("%+v", *st.Proj), "code", fmt.Sprintf("%+v", sn))
+		} else {
+			r.stats["projok"]++
+		}
+	}
 	if len(s.Waiting) == 0 {
 		r.rec.Log("Quiescent")
 	}
